@@ -17,12 +17,13 @@ A source-level templated grammar `<src>` is the token stream
         its status equals the real one and, for `ok`, the instantiated rules are the real ones up to
         the naming of nonterminals and the order of nonterminal blocks (both grammars are renamed by
         breadth-first discovery from the inputs, alternatives in order, right-hand sides left to right;
-        nonterminals unreachable from the inputs are ignored); otherwise `differ …`.
+        nonterminals unreachable from the inputs are ignored; of several empty rules of a nonterminal only the
+        first counts, as `Expand` drops the others) AND the propagation certificate holds; otherwise `differ …`.
   sem L <src>
         the languages of the inputs up to length L under the SOURCE-LEVEL semantics (`srcImp`), computed by
         a bounded fixpoint over (nonterminal, total valuation) pairs; independent of the mirror.
         answer: per input the strings (terminal numbers as digits) joined by `,`, inputs joined by `;`
-  check <nP> <ctx: p=v,…|-> <pred>      → the mirror `check`: 1 | 0 | fatal      (not used by the harness yet)
+  check <ctx: p=v,…|-> <pred>           → the mirror `check`: 1 | 0 | fatal      (debugging aid; predicates are tied through `inst`)
   judge <answer> :: inst <src> :: <real>
         `violates: …` when some string up to length 5 is in the source-level language of an input and not derivable
         from the same input of the REAL instantiated rules or vice versa (bounded fixpoint on both sides); `holds` otherwise.
